@@ -15,9 +15,18 @@ P("C02", "translation_validation", "Lean model vs code differential + independen
   "re-implementation of the documented grammar (harness/src/spec.rs).",
   TV_NOTE, rule=NONTRIV + "non-trivial = prefix or at least two components", design_ref="§5 C02")
 
-P("C03", "translation_validation", "Lean model vs code differential + self-consistency oracle",
-  "All interleavings up to a bound against the model; reversal, exhaustion, pointer-range conservation on the implementation.",
-  TV_NOTE, rule=NONTRIV + "non-trivial = at least two components; distinct by (encoding, input, mask)", design_ref="§5 C03")
+P("C03", "proof", "Lean 4 theorems (induction over tokens and over the step list) + model/code correspondence",
+  "Proved in Lean for the model, for every byte string, both encodings and every sequence of front/back steps: back "
+  "iteration is the reverse of front iteration (dei_reverse), every interleaving returns step by step what taking from "
+  "the corresponding end of the forward list returns and leaves the untouched middle (dei_interleave), at most |comps| "
+  "steps succeed and exhaustion is permanent (dei_exhaust, dei_stays_exhausted), and the input is prefix text + tokens "
+  "whose name tokens are exactly the normal components in order (dei_conservation). The model is tied to the code by "
+  "the correspondence check on every run (all interleavings up to a bound, both encodings).",
+  "Theorems are about the token-level model; that the Rust parsers behave like the model is validated by differential "
+  "testing (bounded-exhaustive + random), not proved. UTF-8 / typed / byte-slice iterator wrappers are covered by the "
+  "oracle (implementation vs implementation), not by a theorem.",
+  theorems=["TP.C03.dei_reverse", "TP.C03.dei_interleave", "TP.C03.dei_exhaust", "TP.C03.dei_stays_exhausted", "TP.C03.dei_conservation"],
+  rule=NONTRIV + "non-trivial = at least two components; distinct by (encoding, input, mask)", design_ref="§5 C03")
 
 P("C04", "translation_validation", "Lean model vs code differential + clause oracle",
   "Checked push outcome and bytes against the model; the four clauses of the property evaluated on the implementation "
